@@ -101,17 +101,20 @@ theorem top_restart (s : St) (ht : Top s) : Top (stepOp s .restart) := by
   have hqinv : Inv (reopen s.fifo) := inv_reopen _ hb.fifo
   -- the state right after the process came back, before raft replays anything
   let s1 : St := { s with batcher := [], fifo := reopen s.fifo, leader := false, held := none,
-                          hwm := firstKey (reopen s.fifo) - 1, leaderPersisted := 0, followerPersisted := 0,
+                          hwm := (if s.hwmFromFirstKey then firstKey (reopen s.fifo) - 1 else 0),
+                          leaderPersisted := 0, followerPersisted := 0,
                           hwmChan := [], lastFed := 0, front := max s.snap (reopen s.fifo).highest }
   have hfk : firstKey (reopen s.fifo) ≤ s.fifo.highest := by
     have := firstKey_le_highest _ hqinv; rw [hrh] at this; exact this
+  have hH : (if s.hwmFromFirstKey then firstKey (reopen s.fifo) - 1 else 0) ≤ firstKey (reopen s.fifo) - 1 := by
+    split <;> omega
   have hf0 : max s.snap (reopen s.fifo).highest ≤ s.front := by
     rw [hrh]; have := hb.bnd.2.2; have := hb.fed.2; omega
   have hb1 : Base s1 (max s.snap (reopen s.fifo).highest) := by
     refine ⟨hqinv, ?_, ?_, ?_, ?_, ?_, ?_, hb.noLb, hb.bsz⟩
     · intro it hit; exact hb.lab it (by rw [← hri]; exact hit)
     · intro it hit; cases hit
-    · show firstKey (reopen s.fifo) - 1 ≤ max (reopen s.fifo).highest s.maxIn ∧
+    · show (if s.hwmFromFirstKey then firstKey (reopen s.fifo) - 1 else 0) ≤ max (reopen s.fifo).highest s.maxIn ∧
         (reopen s.fifo).nextFrom ≤ max (reopen s.fifo).highest s.maxIn + 1 ∧
         (reopen s.fifo).highest ≤ max s.snap (reopen s.fifo).highest
       rw [hrh, hrn]; omega
@@ -126,7 +129,7 @@ theorem top_restart (s : St) (ht : Top s) : Top (stepOp s .restart) := by
     · rcases h with ⟨it, hit, hlive, hgi⟩ | ⟨it, hit, hlt, hgi⟩
       · right; left; left
         refine ⟨it, by show it ∈ (reopen s.fifo).items; rw [hri]; exact hit, ?_, hgi⟩
-        show (reopen s.fifo).nextFrom ≤ it.1 ∧ firstKey (reopen s.fifo) - 1 < it.1
+        show (reopen s.fifo).nextFrom ≤ it.1 ∧ (if s.hwmFromFirstKey then firstKey (reopen s.fifo) - 1 else 0) < it.1
         have hk := firstKey_le (reopen s.fifo) hqinv.sorted it (by rw [hri]; exact hit)
         have := hlive.2
         rw [hrn]; omega
@@ -134,7 +137,7 @@ theorem top_restart (s : St) (ht : Top s) : Top (stepOp s .restart) := by
         rcases h4 with h4 | h4
         · right; left; left
           refine ⟨it, by show it ∈ (reopen s.fifo).items; rw [hri]; exact h4, ?_, hgi⟩
-          show (reopen s.fifo).nextFrom ≤ it.1 ∧ firstKey (reopen s.fifo) - 1 < it.1
+          show (reopen s.fifo).nextFrom ≤ it.1 ∧ (if s.hwmFromFirstKey then firstKey (reopen s.fifo) - 1 else 0) < it.1
           have hk := firstKey_le (reopen s.fifo) hqinv.sorted it (by rw [hri]; exact h4)
           rw [hrn]; omega
         · left; right
